@@ -1,9 +1,10 @@
 (** C01 — model of the path handling of a request:
     [kvarn_utils::percent_decode] (utils/src/lib.rs), [parse::sanitize_request] (path part),
-    [parse::uri], [make_path] (utils/src/parse.rs, utils/src/lib.rs), the use of the sanitize
-    result in [handle_cache] / [get_response] / [handle_request] (src/lib.rs), the
-    "Expand . and /" Prime extension (src/extensions.rs), and a lexical / tree model of how
-    the operating system resolves the resulting path when there are no symbolic links.
+    [parse::uri], [make_path] (utils/src/parse.rs, utils/src/lib.rs), the file path [get_response]
+    builds (src/lib.rs), the "Expand . and /" Prime extension (src/extensions.rs), [http::Uri]'s
+    parser, and a lexical / tree model of how the operating system resolves the resulting path
+    when there are no symbolic links.  The request pipeline ([handle_cache] / [get_response] /
+    [handle_request] / [error::default] / the file cache) is Model/PathSanServe.v.
     Definitions only; proofs live in Proofs/PathSanProofs.v. *)
 From KV Require Export Bytes.
 Open Scope N_scope.
@@ -295,99 +296,13 @@ Fixpoint descend (n : node) (names : list bytes) : option node :=
   end.
 
 (** ---------------------------------------------------------------------------
-    The request pipeline as far as this property is concerned (src/lib.rs [handle_cache],
-    [get_response], [handle_request]; src/extensions.rs [resolve_prime], [resolve_prepare]). *)
-
-(** The "Expand . and /" Prime extension ([Extensions::with_uri_redirect]). *)
+    The "Expand . and /" Prime extension; the request pipeline itself ([serve]) is in Model/PathSanServe.v. *)
 Definition ends_with_byte (c : N) (s : bytes) : bool :=
   match s with [] => false | _ => last s 0 =? c end.
 Definition uri_redirect (ext_default folder_default p : bytes) : option bytes :=
   if ends_with_byte c_dot p then Some (p ++ ext_default)
   else if ends_with_byte c_slash p then Some (p ++ folder_default)
   else None.
-
-Inductive event :=
-| ESanitize                      (* utils::sanitize_request *)
-| EPrime                         (* resolve_prime ran *)
-| EPrepareSingle (key : bytes)   (* prepare_single.get(key) consulted *)
-| EPrepareRun (key : bytes)      (* a path-bound Prepare extension was invoked *)
-| EPrepareFn                     (* the predicate-bound Prepare extensions were consulted *)
-| EFsRead (path : bytes)         (* read_file(path) *)
-| EErrorPage (status : N).       (* error::default_response(status) *)
-
-Record host_cfg := {
-  h_path : bytes;                 (* host.path *)
-  h_public : bytes;               (* options.public_data_dir or "public" *)
-  h_redirect : bool;              (* the "Expand . and /" Prime is installed (Extensions::new) *)
-  h_ext_default : bytes;          (* options.extension_default or "html" *)
-  h_folder_default : bytes;       (* options.folder_default or "index.html" *)
-  h_prepare_single : list bytes   (* keys of the path-bound Prepare extensions *)
-}.
-
-(** [resolve_prime]: a result that does not start with "/./" replaces the request URI *)
-Definition primed_path (h : host_cfg) (p : bytes) : bytes :=
-  if h_redirect h then
-    match uri_redirect (h_ext_default h) (h_folder_default h) p with
-    | Some q => q
-    | None => p
-    end
-  else p.
-
-Inductive meth := MGet | MHead | MOther.
-
-Record reply := {
-  r_status : N;
-  r_body : option bytes;          (* Some c: the content of a file / None: generated *)
-  r_from_cache : bool
-}.
-
-(** [fs]: what [read_file] returns for a path string.  [override]: the [/./…] URI a Prime
-    extension returned (CORS), if any.  [cached]: the response-cache entry found under the key
-    of [override] / the request URI, if any. *)
-Definition serve (h : host_cfg) (fs : bytes -> option bytes) (m : meth)
-    (override : option bytes) (cached : option reply) (p : bytes) : reply * list event :=
-  let san := sanitize_path p in
-  let p' := primed_path h p in
-  let ev0 := [ESanitize; EPrime] in
-  match cached, san, m with
-  | Some r, Ok _, MGet | Some r, Ok _, MHead =>
-      ({| r_status := r_status r; r_body := r_body r; r_from_cache := true |}, ev0)
-  | _, _, _ =>
-      match san with
-      | Ok _ =>
-          let key := match override with Some k => k | None => p' end in
-          match request_fs_path (h_path h) (h_public h) p' with
-          | Panic => ({| r_status := 0; r_body := None; r_from_cache := false |}, ev0)
-          | Err _ => ({| r_status := 0; r_body := None; r_from_cache := false |}, ev0)
-          | Ok path =>
-              if existsb (beq key) (h_prepare_single h) then
-                ({| r_status := 200; r_body := None; r_from_cache := false |},
-                 ev0 ++ [EPrepareSingle key; EPrepareRun key])
-              else
-                let ev1 := ev0 ++ [EPrepareSingle key; EPrepareFn] in
-                match path with
-                | None => ({| r_status := 404; r_body := None; r_from_cache := false |}, ev1 ++ [EErrorPage 404])
-                | Some f =>
-                    match m with
-                    | MOther => ({| r_status := 405; r_body := None; r_from_cache := false |}, ev1 ++ [EErrorPage 405])
-                    | _ =>
-                        match fs f with
-                        | Some c => ({| r_status := 200; r_body := Some c; r_from_cache := false |}, ev1 ++ [EFsRead f])
-                        | None => ({| r_status := 404; r_body := None; r_from_cache := false |},
-                                   ev1 ++ [EFsRead f; EErrorPage 404])
-                        end
-                    end
-                end
-          end
-      | _ => ({| r_status := E_UNSAFE; r_body := None; r_from_cache := false |}, ev0 ++ [EErrorPage E_UNSAFE])
-      end
-  end.
-
-Definition is_prepare_or_read (e : event) : bool :=
-  match e with
-  | EPrepareSingle _ | EPrepareRun _ | EPrepareFn | EFsRead _ => true
-  | _ => false
-  end.
 
 (** ---------------------------------------------------------------------------
     Specification (independent of the code's structure). *)
@@ -413,8 +328,9 @@ Definition unsafe_b (d : bytes) : bool :=
 Definition confined (segs : list bytes) : Prop := forall k, walk [] (firstn k segs) <> None.
 
 (** ---------------------------------------------------------------------------
-    [http::Uri] (1.5.0) as far as the correspondence needs it: which request targets are
-    accepted and what [Uri::path()] returns.  Origin form, "*" and a bare reg-name. *)
+    [http::Uri] (1.5.0), [Uri::from_shared] / [Uri::try_from(&[u8])]: which byte strings are accepted
+    and what [Uri::path()] and [Uri::query()] return — for every form of request target (origin
+    form, "*", authority form, absolute form with any scheme). *)
 Definition path_byte_valid (c : N) : bool :=
   (c =? 33) || ((36 <=? c) && (c <=? 59)) || (c =? 61) || ((64 <=? c) && (c <=? 95)) ||
   ((97 <=? c) && (c <=? 122)) || (c =? 124) || (c =? 126) || (c =? 34) || (c =? 123) || (c =? 125) ||
@@ -435,26 +351,129 @@ Fixpoint take_path (s : bytes) : bytes * option bytes :=   (* path, text after '
               else let (p, q) := take_path r in (c :: p, q)
   end.
 
-Definition origin_form_path (t : bytes) : option bytes :=
-  let t := take_until_hash t in
-  let (p, q) := take_path t in
-  if forallb path_byte_valid p && match q with Some q => forallb query_byte_valid q | None => true end
-     && utf8_valid t
-  then Some p else None.
+(** [PathAndQuery::from_shared] with [path()] (an empty path reads "/") and [query()]: the text must
+    be "*" or start with '/', '?' or '#'; the fragment is cut off; UTF-8 is checked on what is left *)
+Definition pq_parse (s : bytes) : option (bytes * option bytes) :=
+  match s with
+  | [] => None
+  | [42] => Some ([42], None)
+  | c :: _ =>
+      if (c =? 47) || (c =? 63) || (c =? 35) then
+        let t := take_until_hash s in
+        let (p, q) := take_path t in
+        if forallb path_byte_valid p && match q with Some q => forallb query_byte_valid q | None => true end
+           && utf8_valid t
+        then Some (match p with [] => [c_slash] | _ => p end, q) else None
+      else None
+  end.
 
-Definition reg_name_byte (c : N) : bool :=
-  ((97 <=? c) && (c <=? 122)) || ((65 <=? c) && (c <=? 90)) || ((48 <=? c) && (c <=? 57)) || (c =? 45) || (c =? 46).
+(** [URI_CHARS] (non-zero entries) and [SCHEME_CHARS] (non-zero entries other than ':') *)
+Definition uri_char (c : N) : bool :=
+  (c =? 33) || (c =? 35) || (c =? 36) || ((38 <=? c) && (c <=? 59)) || (c =? 61) || ((63 <=? c) && (c <=? 91)) ||
+  (c =? 93) || (c =? 95) || ((97 <=? c) && (c <=? 122)) || (c =? 126).
+Definition scheme_char (c : N) : bool :=
+  (c =? 43) || (c =? 45) || (c =? 46) || ((48 <=? c) && (c <=? 57)) || ((65 <=? c) && (c <=? 90)) ||
+  ((97 <=? c) && (c <=? 122)) || (c =? 126).
 
-Definition uri_path (t : bytes) : option bytes :=
+(** [Scheme2::parse] after the two standard schemes: [None] = SchemeTooLong, [Some None] = no scheme,
+    [Some (Some rest)] = the text after "<scheme>://" *)
+Fixpoint scheme_scan (s : bytes) (i : nat) : option (option bytes) :=
+  match s with
+  | [] => Some None
+  | c :: r =>
+      if c =? 58 then
+        match r with
+        | 47 :: 47 :: rest => if (64 <? i)%nat then None else Some (Some rest)
+        | _ => Some None
+        end
+      else if scheme_char c then scheme_scan r (S i) else Some None
+  end.
+Definition scheme_parse (s : bytes) : option (option bytes) :=
+  if beq (lower (firstn 7 s)) (B "http://") then Some (Some (skipn 7 s))
+  else if beq (lower (firstn 8 s)) (B "https://") then Some (Some (skipn 8 s))
+  else if (3 <? length s)%nat then scheme_scan s 0 else Some None.
+
+(** [validate_authority_bytes]: the index where the authority ends (first '/', '?' or '#') *)
+Record auth_st := { a_colon : nat; a_sb : bool; a_eb : bool; a_pct : bool; a_at : option nat }.
+Fixpoint auth_scan (s : bytes) (i : nat) (st : auth_st) : option (nat * auth_st) :=
+  match s with
+  | [] => Some (i, st)
+  | c :: r =>
+      if (c =? 47) || (c =? 63) || (c =? 35) then Some (i, st)
+      else if negb (uri_char c) then
+        if c =? 37 then
+          auth_scan r (S i) {| a_colon := a_colon st; a_sb := a_sb st; a_eb := a_eb st; a_pct := true; a_at := a_at st |}
+        else None
+      else if c =? 58 then
+        if (8 <=? a_colon st)%nat then None
+        else auth_scan r (S i) {| a_colon := S (a_colon st); a_sb := a_sb st; a_eb := a_eb st; a_pct := a_pct st; a_at := a_at st |}
+      else if c =? 91 then
+        if a_pct st || a_sb st then None
+        else auth_scan r (S i) {| a_colon := a_colon st; a_sb := true; a_eb := a_eb st; a_pct := a_pct st; a_at := a_at st |}
+      else if c =? 93 then
+        if negb (a_sb st) || a_eb st then None
+        else auth_scan r (S i) {| a_colon := O; a_sb := a_sb st; a_eb := true; a_pct := false; a_at := a_at st |}
+      else if c =? 64 then
+        auth_scan r (S i) {| a_colon := O; a_sb := a_sb st; a_eb := a_eb st; a_pct := false; a_at := Some i |}
+      else auth_scan r (S i) st
+  end.
+Definition authority_end (s : bytes) : option nat :=
+  match s with
+  | [] => None
+  | _ =>
+      match auth_scan s 0 {| a_colon := O; a_sb := false; a_eb := false; a_pct := false; a_at := None |} with
+      | None => None
+      | Some (e, st) =>
+          if xorb (a_sb st) (a_eb st) then None
+          else if (1 <? a_colon st)%nat then None
+          else if (0 <? e)%nat && match a_at st with Some k => (k =? e - 1)%nat | None => false end then None
+          else if a_pct st then None
+          else Some e
+      end
+  end.
+
+(** [parse_full]: [path()] is "" for the authority form (no scheme, no path) *)
+Definition parse_full (s : bytes) : option (bytes * option bytes) :=
+  match scheme_parse s with
+  | None => None
+  | Some None =>
+      match authority_end s with
+      | Some e => if (e =? length s)%nat then Some ([], None) else None
+      | None => None
+      end
+  | Some (Some rest) =>
+      match authority_end rest with
+      | Some e =>
+          if (e =? 0)%nat then None
+          else match skipn e rest with
+               | [] => Some ([c_slash], None)
+               | pq => pq_parse pq
+               end
+      | None => None
+      end
+  end.
+
+(** ([Uri::path()], [Uri::query()]) of [Uri::try_from(t)] *)
+Definition uri_parse (t : bytes) : option (bytes * option bytes) :=
   if 65534 <? N.of_nat (length t) then None else
   match t with
   | [] => None
-  | [42] => Some [42]
-  | c :: _ =>
-      if c =? c_slash then origin_form_path t
-      else if forallb reg_name_byte t then Some []
-      else None
+  | [c] =>
+      if c =? c_slash then Some ([c_slash], None)
+      else if c =? 42 then Some ([42], None)
+      else match authority_end [c] with
+           | Some e => if (e =? 1)%nat then Some ([], None) else None
+           | None => None
+           end
+  | c :: _ => if c =? c_slash then pq_parse t else parse_full t
   end.
+Definition uri_path (t : bytes) : option bytes := option_map fst (uri_parse t).
+
+(** the URI kvarn's HTTP/1 reader ([kvarn_async::read::request]: scheme "://" Host-header target) and
+    the in-process harness build for a request target: what the client writes into the Host header is part of
+    the text that is parsed, so a Host header "localhost/.." puts "/.." in front of the target's path *)
+Definition uri_of (host_header t : bytes) : option (bytes * option bytes) := uri_parse (B "http://" ++ host_header ++ t).
+Definition target_uri (t : bytes) : option (bytes * option bytes) := uri_of (B "localhost") t.
 
 (** ---------------------------------------------------------------------------
     xval interface *)
